@@ -385,6 +385,10 @@ func (c *Ctx) gateTableOf(oi *opInfo) gateTable {
 	if t.rows, how, ok = c.evalDtypeMatrix(oi.methods["GetInputTypeConstraints"]); !ok {
 		if c.returnsReceiverField(oi.methods["GetInputTypeConstraints"]) != "" {
 			t.dynRows = true
+		} else if rows, ok := c.walkDtypeMatrix(oi); ok {
+			// not a literal (a shared constructor of the table, a package variable built by a function):
+			// the getter is walked on a freshly constructed operator
+			t.rows, t.rowsOK = rows, true
 		} else {
 			t.evaluable = false
 			t.whyNotEval = "GetInputTypeConstraints: " + how
@@ -393,6 +397,51 @@ func (c *Ctx) gateTableOf(oi *opInfo) gateTable {
 		t.rowsOK = true
 	}
 	return t
+}
+
+// walkDtypeMatrix reads the operator's type table by walking GetInputTypeConstraints on an operator built by its
+// registered constructor (the partial interpreter; gorgonia's dtype variables are opaque tokens).
+func (c *Ctx) walkDtypeMatrix(oi *opInfo) ([][]string, bool) {
+	m := oi.methods["GetInputTypeConstraints"]
+	ctor := c.registeredCtor(oi, oi.name)
+	if m == nil || ctor == nil {
+		return nil, false
+	}
+	st := c.libInit()
+	if len(st.failed) > 0 {
+		return nil, false
+	}
+	names := map[string]string{}
+	for _, n := range []string{"Bool", "Int8", "Int16", "Int32", "Int64", "Uint8", "Uint16", "Uint32", "Uint64", "Float32", "Float64", "Complex64", "Complex128", "String"} {
+		if v, ok := c.dtypeToken(n); ok {
+			names[fmt.Sprintf("%d/%s", v.i, v.s)] = n
+		}
+	}
+	p := &pinterp{c: c, budget: 200000, objects: true, globals: st.globals}
+	res, h := p.run(ctor, nil, 0, st.heap.clone())
+	if h == nil || len(res) != 1 || res[0].k != pObj {
+		return nil, false
+	}
+	r, h2 := p.run(m, []pval{res[0]}, 0, h)
+	if h2 == nil || len(r) != 1 || r[0].k != pList {
+		return nil, false
+	}
+	var rows [][]string
+	for _, rv := range h2.lists[r[0].i] {
+		if rv.k != pList || h2.lists[rv.i] == nil {
+			return nil, false
+		}
+		row := []string{}
+		for _, e := range h2.lists[rv.i] {
+			n, ok := names[fmt.Sprintf("%d/%s", e.i, e.s)]
+			if e.k != pAbs || !ok {
+				return nil, false
+			}
+			row = append(row, n)
+		}
+		rows = append(rows, row)
+	}
+	return rows, true
 }
 
 // returnsReceiverField: body is `return recv.f` -> field name.
